@@ -149,6 +149,18 @@ pub static CURRENT_SUBSTEP: std::sync::atomic::AtomicU64 = std::sync::atomic::At
 /// some call into the crate does not return. The watchdog writes a witness (`hang-<engine>-<shard>.json`)
 /// and ends the worker with exit code 17; the driver reports it and restarts the shard behind that case.
 /// CPU time, not wall-clock time: an overloaded machine cannot trip it.
+/// CPU time the thread spent in USER mode, in nanoseconds (`utime` of /proc/<pid>/task/<tid>/stat, USER_HZ = 100).
+/// Deliberately not the scheduler's on-CPU time (`schedstat`): in a virtual machine whose memory is backed lazily
+/// (a sandbox restored from a snapshot) the first touch of a page can stall for milliseconds inside the guest
+/// kernel's page-fault path, and a case that allocates a few hundred MiB was once observed to "use" 90 s of on-CPU
+/// time that way while it takes 0.3 s. Such stalls are kernel time; a call that spins in the crate burns user time.
+pub fn thread_user_cpu_ns(task_path: &str) -> Option<u64> {
+    let s = std::fs::read_to_string(format!("/proc/{}/stat", task_path)).ok()?;
+    let rest = &s[s.rfind(')')? + 1..];
+    let utime_ticks: u64 = rest.split_whitespace().nth(11)?.parse().ok()?;
+    Some(utime_ticks * 10_000_000)
+}
+
 pub fn start_progress_watchdog(prop: &'static str, seed: u64, engine: Engine, shard: u64, out_dir: Option<String>, bound_s: f64, eof_bound: Option<u64>) {
     let task = match std::fs::read_link("/proc/thread-self") {
         Ok(p) => p.to_string_lossy().into_owned(),
@@ -156,7 +168,7 @@ pub fn start_progress_watchdog(prop: &'static str, seed: u64, engine: Engine, sh
     };
     std::thread::spawn(move || {
         use std::sync::atomic::Ordering::SeqCst;
-        let cpu = |t: &str| -> Option<u64> { std::fs::read_to_string(format!("/proc/{}/schedstat", t)).ok()?.split_whitespace().next()?.parse().ok() };
+        let cpu = |t: &str| -> Option<u64> { thread_user_cpu_ns(t) };
         let mut seen: Option<(u64, u64)> = None; // (case, cpu at first sight)
         let mut eof_seen: u64 = 0; // FIBEX end-of-file events delivered when the case was first seen
         // a call that *sleeps* (retry loops with back-off, waiting for something that never comes) burns no CPU:
@@ -253,7 +265,7 @@ pub fn start_progress_watchdog(prop: &'static str, seed: u64, engine: Engine, sh
                     .set("reason", "case_cpu_time_bound")
                     .set("thread_cpu_s", format!("{:.1}", used))
                     .set("bound_s", format!("{:.0}", bound_s))
-                    .set("what", "one case kept the worker's main thread busy for longer than the bound: a call into the crate does not return");
+                    .set("what", "one case kept the worker's main thread busy in user mode for longer than the bound: a call into the crate does not return");
                 match &out_dir {
                     Some(d) => {
                         let _ = std::fs::write(format!("{}/hang-{}-{}.json", d, engine.name(), shard), j.to_string());
